@@ -1516,8 +1516,33 @@ class HistGen:
                  ('key "x y"', 'key "x x"'), ("length \"1..4\"", "length \"4..1\""), ("max-elements 6", "max-elements 0"), ("config false;", "config false; config true;"),
                  ("type binary;", "type binary {length \"x\";}"), ("type empty;", "type empty; default 1;")]
 
-    def g_schema(self, early):
+    # module lfe<k> for set k: includes the submodule lfesub<k> the harness serves through its import callback; the submodule imports the
+    # base module of the set under a prefix of its own (q) and derives identities from it; a LATE failure of the load (after the
+    # identities were linked into the surviving base's `derived` array) has to unlink all of them again
+    LFE = ["lfa", "lfb", "lfd"]
+    LFE_BASE = ["base-id", "proto", "kind"]
+    LFE_LATE = [("default 50", "default 500"), ('path "../el"', 'path "../nosuch"'), ("base em1", "base nope"), ("type int8 {", "type nosuch {"),
+                ('must "../el"', 'must "../el +"'), None, None]
+
+    def lfe_text(self, k, edit):
+        b, base = self.LFE[k], self.LFE_BASE[k]
+        t = ("module lfe%d {yang-version 1.1; namespace \"urn:lfe%d\"; prefix e; import %s {prefix p;} include lfesub%d;\n"
+             " identity em1 {base p:%s;} identity em2 {base em1;}\n"
+             " container ec {leaf el {type int8 {range \"0..100\";} default 50;} leaf er {type leafref {path \"../el\";}}\n"
+             "  leaf ei {must \"../el\"; type identityref {base p:%s;}} leaf ej {type identityref {base em1;}}}\n}\n") % (k, k, b, k, base, base)
+        if edit:
+            t = t.replace(edit[0], edit[1], 1)
+        return t
+
+    def g_schema(self, early, force_lfe=False):
         rng = self.rng
+        if force_lfe or rng.random() < 0.22:
+            # a module with a submodule of the kind described above, mostly failing late; followed by identityref data of the base module
+            e = rng.choice(self.LFE_LATE)
+            self.emit("schema:%s:submodule-identities" % ("bad-late" if e else "good"), O("ymod", False, self.lfe_text(self.set, e).encode()))
+            self.known = {}
+            self.diffslot = 0
+            return
         k = rng.randrange(10)
         other = [i for i in range(NSETS) if i != self.set]
         if k <= 4:
@@ -1604,7 +1629,13 @@ class HistGen:
         if rng.random() < 0.15:
             for _ in range(rng.randrange(1, 4)):
                 self.g_schema(True)
+        if stream == "subident":
+            # failed (late) loads of a module whose submodule derives identities from a surviving module, then identityref data
+            for _ in range(rng.randrange(1, 3)):
+                self.g_schema(True, force_lfe=True)
         fams = [f for f, w in self.FAMILIES for _ in range(w)]
+        if stream == "subident":
+            fams += ["g_parse"] * 20 + ["g_new_path"] * 10
         if stream == "f19":
             fams += ["g_change"] * 25
         if stream == "f111":
@@ -2103,7 +2134,7 @@ def run_life(cx, workers=None):
             "LeakSanitizer, failed schema load leaves the dictionary alone, NULL outputs on failure, node links); first the witnesses of the known findings and "
             "every op family on every schema set; features with known defects only in separate sub-streams: value change of leaf-list instances / list keys (F19, "
             "12%), lyd_new_path(UPDATE) on any nodes (F111, 3%), LYD_VALIDATE_MULTI_ERROR parses (F113, 3%), LY_CTX_LEAFREF_LINKING (F114, 2%), opaque nodes (12%, no "
-            "merge/diff), validated subtree parses (F119, 2%); non-trivial = distinct history whose reply reports at least one successful and one failing library call")
+            "merge/diff), validated subtree parses (F119, 2%), late-failing loads of a module whose submodule derives identities from a surviving module under a prefix of its own (4%); non-trivial = distinct history whose reply reports at least one successful and one failing library call")
 
     hist = []       # (set, ctxopts, ops, kinds, stream)
     for s in (seed_f19(), seed_f19_key(), seed_f21(), seed_f111(), seed_f112(), seed_f113(), seed_f114(), seed_f115(), seed_f116(), seed_f119(), seed_f121(), seed_f123(), seed_f123b(), seed_f124(), seed_f125(), seed_f126(), seed_f127(), seed_f128(0), seed_f128(1)):
@@ -2112,7 +2143,7 @@ def run_life(cx, workers=None):
     n = int(os.environ.get("VERIF_LIFE_N", "0")) or cx.n(2200, 30000)
     for i in range(n):
         x = rng.random()
-        stream = "f19" if x < 0.12 else "f111" if x < 0.15 else "multierr" if x < 0.18 else "lrlink" if x < 0.20 else "opaq" if x < 0.32 else "subval" if x < 0.34 else "whendel" if x < 0.40 else "main"
+        stream = "f19" if x < 0.12 else "f111" if x < 0.15 else "multierr" if x < 0.18 else "lrlink" if x < 0.20 else "opaq" if x < 0.32 else "subval" if x < 0.34 else "whendel" if x < 0.40 else "subident" if x < 0.44 else "main"
         si, co, ops, kinds = gen.history(stream)
         # LeakSanitizer runs whenever the byte balance of the heap is off; on top of that it is forced for a sample
         if rng.random() < (0.25 if cx.tier == "thorough" else 0.05):
